@@ -34,3 +34,15 @@ PROPS['C06'] = {
     'outside': ['N > 8 in K (M decides the index arithmetic of the loop-free methods for all 64-bit N)', '{:#?} alternate Debug (delegation shown by M)'],
     'assumptions': ['f + b <= N (reachable positions)'],
 }
+
+PROPS['C03'] = {
+    'kani': {
+        'quick': [krun(['c03::q::'], timeout=900, bounds='N <= 4 (iterator ops: every (front,back) position and one of 10 operations symbolic, nth argument any usize); functional/conversions N in {0,1,3,4}; split/concat/remove/flatten/native on the listed (N,K) / (N,M) instantiations')],
+        'thorough': [krun(['c03::'], timeout=2400, bounds='N <= 8; more (N,K), (N,M) pairs; tuples to arity 12')],
+    },
+    'functions': ['GenericArrayIter::*', 'GenericArray::{generate,map,zip,fold,clone,from_array,into_array,try_from_iter,from_iter,try_boxed_from_iter,into_vec,into_boxed_slice,try_from_vec,try_from_boxed_slice}',
+                  'Lengthen/Shorten/Split/Concat/Remove/Flatten/Unflatten for GenericArray', 'From/TryFrom between GenericArray, Vec, Box<[T]>, tuples'],
+    'bounds': 'K: N <= 4 quick / 8 thorough, drop-tracked Tr (identity, double-drop and use-after-drop assertions) and drop-counting ZST; histories by the inductive-step argument: each operation is started from an arbitrary valid ownership state and must conserve ownership.',
+    'outside': ['panicking paths (C04/C05, engine M)', 'N > 8'],
+    'assumptions': ['f + b <= N', 'composition: the only state between two operations is a set of fully-owned arrays and iterators owning [front, back) - stated in DESIGN.md C03'],
+}
